@@ -300,6 +300,58 @@ def run(ctx):
     ctx.correspondence("T+U / T-U (incl. refusals) and flat weighted means == Coq model", "c15", IMPORTS, cases, meta)
     if cases:
         ctx.sample(dict(case=meta[0], impl=cases[0][1][:30]))
+    # ---- histories on ONE MagneticShielding object: used once, its metadata changed through the public API, used again.  The result must carry the
+    #      metadata the operand has NOW (read from the public attributes, not from _initialisation_params), and an operand that now conflicts is refused
+    from soprano.nmr.tensor import MagneticShielding
+    for t in range(30 if quick else 400):
+        m1, m2 = rnd_mat(rng), rnd_mat(rng)
+        sp = rng.choice(["13C", "1H"])
+        o1, r1, g1 = rng.choice(ORDERS), rng.choice([30.0, 170.5]), rng.choice([-1.0, -0.98])
+        change = rng.choice(["set_reference", "set_gradient", "order"])
+        case = dict(kind="metadata-history", change=change)
+        ctx.evaluations += 1
+        try:
+            a_ = MagneticShielding(m1, species=sp, order=o1, reference=r1, gradient=g1)
+            b_ = MagneticShielding(m2, species=sp, order=o1, reference=r1, gradient=g1)
+            _first = a_ + b_                                   # first use
+            if change == "set_reference":
+                new = r1 + 12.25
+                a_.set_reference(new)
+                b_.set_reference(new)
+            elif change == "set_gradient":
+                new = -0.9 if g1 != -0.9 else -0.95
+                a_.set_gradient(new)
+                b_.set_gradient(new)
+            else:
+                new = rng.choice([o for o in ORDERS if o != o1])
+                a_.order = new
+                b_.order = new
+            r_ = a_ + b_
+            got = dict(order=r_.order, reference=r_.reference, gradient=r_.gradient, species=r_.species)
+            want = dict(order=a_.order, reference=a_.reference, gradient=a_.gradient, species=a_.species)
+            p_ = None
+            if got != want:
+                p_ = "after %s the sum carries %s, its operands now have %s (stale metadata)" % (change, got, want)
+            elif not np.allclose(np.array(r_.data), m1 + m2, atol=1e-12):
+                p_ = "after %s the sum's data is not the matrix sum" % change
+            else:
+                # now only ONE operand is changed again: the pair conflicts and must be refused
+                if change == "set_reference":
+                    a_.set_reference(new + 1.5)
+                elif change == "set_gradient":
+                    a_.set_gradient(new - 0.03)
+                else:
+                    a_.order = o1
+                try:
+                    a_ + b_
+                    p_ = "operands whose %s now differ are combined instead of refused" % {"set_reference": "references", "set_gradient": "gradients", "order": "orders"}[change]
+                except ValueError:
+                    pass
+            ctx.seen(("metadata-history", change, p_ is None))
+            if p_:
+                ctx.fail_input("arith", case, p_, classify)
+        except Exception as e:
+            ctx.fail_input("arith", case, "metadata history raised %s: %s" % (type(e).__name__, str(e)[:160]), classify)
     if ctx.tier == "thorough":
         ctx.coqchk()
 
